@@ -4,6 +4,12 @@ _failed: Failed
 //@ fn CaCert::cert
 //@ spec
     ensures *res == self.cert,
+//@ fn CaCert::ca_repository
+//@ spec
+    ensures *res == self.ca_repository,
+//@ fn CaCert::rpki_manifest
+//@ spec
+    ensures *res == self.rpki_manifest,
 //@ fn CaCert::new
 //@ spec
     ensures
@@ -151,12 +157,60 @@ _failed: Failed
             decreases store_.pending(),
 //@ beforeloop 1
         let ghost manifest0 = manifest;
+//@ fn UpdateError::from_run_failed
+//@ fn UpdateError::from_failed
+//@ params
+_failed: Failed
+//@ fn StoredObject::new
+//@ spec
+    ensures res.uri == uri && res.content == content && res.hash == hash,
+//@ fn PubPoint::process_collected_object
+//@ spec
+    requires
+        gen_inv(old(self), old(collected), old(ca_tasks)@, old(self), old(collected)),
+        items_listed((*old(items)).remaining(), old(collected)),
+        (*old(items)).obeys_prophetic_iter_laws(),
+    ensures
+        // C01/C03: the generator invariant: everything fed to the processor so far was validated
+        // under this CA against this one manifest; the child tasks likewise
+        res is Ok ==> gen_inv(final(self), final(collected), final(ca_tasks)@, old(self), old(collected)),
+        items_listed((*final(items)).remaining(), old(collected)),
+        (*final(items)).obeys_prophetic_iter_laws(),
+        // C02/C41: an object-level fault never makes the point unacceptable
+        *final(point_ok) == *old(point_ok),
+        // C41 frame
+        final(self).same_ctx(old(self)),
+        // C01: an object is handed on (and stored) only when it is listed on this manifest with a
+        // matching hash
+        res matches Ok(Some(obj)) ==> object_listed(obj.uri, obj.content, old(collected), &**old(self).cert),
+        // C41: the update is abandoned (not failed) for a missing or mismatching file
+        res matches Err(UpdateError::Failed(_)) ==> !P::PubPoint::infallible()
+            || exists|u: RsyncUri| repo_load_failed(collector, &u),
+//@ fn PubPoint::process_collected
+//@ spec
+    requires
+        // C03
+        self.processor.log() == Seq::<Item>::empty(),
+    ensures
+        res matches Ok(Err(this)) ==> this.run == self.run && this.cert == self.cert,
+        // C01: child tasks are for CAs validated under this one
+        res matches Ok(Ok(tasks)) ==> forall|i: int| 0 <= i < tasks@.len() ==>
+            child_ok(#[trigger] tasks@[i], *self.cert, self.run.validation.max_ca_depth),
+//@ closureopaque 1 &mut self_, &mut items, &mut collected, &collector, &mut ca_tasks, &mut point_ok
 //@ fn PubPoint::process
 //@ spec
     requires
         // C03 (paper step: process_ca_task hands over the fresh processor of process_ta / process_ca)
         self.processor.log() == Seq::<Item>::empty(),
 //@ global
+impl vstd::std_specs::convert::FromSpecImpl<Failed> for UpdateError {
+    open spec fn obeys_from_spec() -> bool { false }
+    uninterp spec fn from_spec(v: Failed) -> UpdateError;
+}
+impl vstd::std_specs::convert::FromSpecImpl<RunFailed> for UpdateError {
+    open spec fn obeys_from_spec() -> bool { false }
+    uninterp spec fn from_spec(v: RunFailed) -> UpdateError;
+}
 impl vstd::std_specs::convert::FromSpecImpl<Failed> for RunFailed {
     open spec fn obeys_from_spec() -> bool { false }
     uninterp spec fn from_spec(v: Failed) -> RunFailed;
@@ -298,4 +352,27 @@ spec fn child_ok<T: ProcessPubPoint>(t: CaTask<T>, ca: Arc<CaCert>, max_depth: u
     &&& t.cert.chain_len <= max_depth
     &&& t.cert.tal == ca.tal
     &&& t.processor.log() == Seq::<Item>::empty()
+}
+
+// The invariant of the object generator of process_collected (relative to the point `p0` and the
+// validated manifest `m0` at the time the update starts).
+spec fn gen_inv<'a, P: ProcessRun>(p: &PubPoint<'a, P>, m: &ValidPointManifest, tasks: Seq<CaTask<P::PubPoint>>,
+                                   p0: &PubPoint<'a, P>, m0: &ValidPointManifest) -> bool {
+    &&& p.same_ctx(p0)
+    &&& m.same_core(m0)
+    &&& mft_ok(m0, &**p0.cert)
+    &&& all_ok(p.processor.log(), &**p0.cert, m0)
+    &&& forall|i: int| 0 <= i < tasks.len() ==>
+            task_ok(#[trigger] tasks[i], *p0.cert, m0, p0.run.validation.max_ca_depth)
+}
+
+spec fn items_listed(items: Seq<MftItem>, m: &ValidPointManifest) -> bool {
+    forall|i: int| 0 <= i < items.len() ==> m.content.lists(#[trigger] items[i])
+}
+
+// C01: "listed with a matching hash on the manifest"
+spec fn object_listed(uri: RsyncUri, content: Bytes, m: &ValidPointManifest, ca: &CaCert) -> bool {
+    exists|item: MftItem| #[trigger] m.content.lists(item)
+        && uri == join_spec(ca.ca_repository, item.file_spec())
+        && hash_ok(item.hash_spec(), m.content.alg_spec(), content)
 }
